@@ -18,10 +18,7 @@ RULES = {
             "arguments only (no terminal/ambient/receiver state outside the key) and no caller mutates its result in place",
     "R1": "operand sign at draw time: every raw cursor template applied in the animation drivers has an operand proven >= 1 (or is guarded); the new "
           "API only uses the guarded helpers cursor_up/down/forward",
-    "R2": "cursor-row balance: with the cursor row tracked as a polynomial over the symbols the code names (height, pad_top, pad_bottom, lines): "
-          "(a) every iteration of the frame loop has net row displacement 0 (every frame over the same cells); (b) after the first frame the cursor returns "
-          "to the top line of the render region; (c) on normal completion the cursor ends on the last line of the (padded) region, so that draw()'s final "
-          "newline leaves it on the line immediately below",
+    "R2": "cursor-row balance: with the cursor row tracked as a polynomial over traced symbols (render height, padding margins, max(pad height, rendered height)): (a) every iteration of the frame loop has net row displacement 0 (every frame over the same cells); (b) after the first frame the cursor returns to the top line of the render region; (c) on normal completion the cursor ends on the last line of the (padded) region, so that draw()'s final newline leaves it on the line immediately below; the iterator's cache holds unpadded frames",
     "R3": "validate before writing: the size errors are raised before the first output effect; the width is checked unconditionally, the height unless "
           "scrolling is allowed (and always for animations)",
     "R4": "final state: Renderable.draw's clean-up writes exactly one newline, then SHOW_CURSOR under the hide condition, then flushes; the old API's "
